@@ -33,7 +33,7 @@ ASSUMPTIONS = [
     "context_behavior and template_cache_size are process-wide settings, fixed per case",
 ]
 BOUNDS = {"quick": {"hyp": 480, "single_pairs": 11, "double_pairs": 2}, "thorough": {"hyp": 40000, "single_pairs": 20, "double_pairs": 4}}
-CFG = {"provide": True, "inject": True, "errors": False, "isfilled": False, "max_nodes": 3, "max_comps": 2, "max_depth": 2, "provide_weight": 3, "inject_pct": 70, "ticks": True, "hooks": False, "elems": True}
+CFG = {"provide": True, "inject": True, "errors": False, "isfilled": False, "max_nodes": 3, "max_comps": 2, "max_depth": 2, "provide_weight": 3, "inject_pct": 70, "ticks": True, "hooks": False, "elems": True, "idecho": True}
 
 CFG_ASSETS = {"assets": True, "errors": False, "isfilled": False, "max_nodes": 3, "max_comps": 3, "max_depth": 2, "elems": True}
 SRCS = ["A{{ v }}", "B{% if v %}{{ v }}{% endif %}", "C{{ v|upper }}", "D{% for i in v %}{{ i }}{% endfor %}", "E"]
@@ -396,14 +396,15 @@ _PROV2 = {
     ],
     "page": {"ctx": {"g": "q"}, "tpl": [{"t": "comp", "name": "c0", "kwargs": {}, "only": False, "body": None}]},
 }
-E = lambda tag, m, c: {"t": "elem", "tag": tag, "m": m, "c": c}  # noqa: E731
+E = lambda tag, m, c: {"t": "elem", "tag": tag, "m": m, "c": c, "idvar": "myid"}  # noqa: E731  (echoes Component.id as read in get_context_data)
+_ID = [["myid", ["id"]]]
 C = lambda name: {"t": "comp", "name": name, "kwargs": {}, "only": False, "body": None}  # noqa: E731
 # root component whose root-level children are components (ids are handed from parent to child through a side table)
 _ELEM = {
     "comps": [
-        {"name": "c0", "params": [], "data": [], "tpl": [C("c1"), E("div", "e1", [T("r")]), C("c2"), C("c1")]},
-        {"name": "c1", "params": [], "data": [], "tpl": [E("span", "e2", [T("x")]), C("c2")]},
-        {"name": "c2", "params": [], "data": [], "tpl": [E("b", "e3", [T("y")])]},
+        {"name": "c0", "params": [], "data": _ID, "tpl": [C("c1"), E("div", "e1", [T("r")]), C("c2"), C("c1")]},
+        {"name": "c1", "params": [], "data": _ID, "tpl": [E("span", "e2", [T("x")]), C("c2")]},
+        {"name": "c2", "params": [], "data": _ID, "tpl": [E("b", "e3", [T("y")])]},
     ],
     "page": {"ctx": {}, "tpl": [C("c0"), C("c2")]},
 }
